@@ -9,6 +9,7 @@ import (
 	"os"
 	"path/filepath"
 	"regexp"
+	"runtime"
 	"strings"
 	"sync"
 	"sync/atomic"
@@ -226,7 +227,62 @@ func raceAgent(c *Ctx) {
 			}
 		}
 	}
-	racePassFinish(c, total, "Agent: 2..5 goroutines x 2 operations over 3 shared ids, re-entrant handlers; Close / Collect over 63..1100 transactions")
+	// a very large table: one Collect over 50000 expired transactions while two goroutines Stop them in index order:
+	// every transaction gets exactly one terminal event, and Stop()==nil goes with the stopped event
+	for round := 0; round < 3; round++ {
+		const n = 50000
+		var mu sync.Mutex
+		stopped, timedOut := make([]uint8, n), make([]uint8, n)
+		idOf := func(i int) (t [12]byte) { t[0], t[1], t[2], t[5] = byte(i), byte(i>>8), byte(i>>16), 0x77; return }
+		a := stun.NewAgent(func(e stun.Event) {
+			i := int(e.TransactionID[0]) | int(e.TransactionID[1])<<8 | int(e.TransactionID[2])<<16
+			mu.Lock()
+			if errors.Is(e.Error, stun.ErrTransactionStopped) {
+				stopped[i]++
+			} else if errors.Is(e.Error, stun.ErrTransactionTimeOut) {
+				timedOut[i]++
+			}
+			mu.Unlock()
+		})
+		for i := 0; i < n; i++ {
+			_ = a.Start(idOf(i), time.Unix(1, 0))
+		}
+		stopOK := make([]uint8, n)
+		var wg sync.WaitGroup
+		var progress atomic.Int64
+		for g := 0; g < 2; g++ {
+			g := g
+			wg.Add(1)
+			go func() {
+				defer wg.Done()
+				for i := g; i < n; i += 2 {
+					if a.Stop(idOf(i)) == nil {
+						stopOK[i]++
+					}
+					progress.Add(1)
+				}
+			}()
+		}
+		wg.Add(1)
+		go func() {
+			defer wg.Done()
+			for progress.Load() < 300 {
+				runtime.Gosched()
+			}
+			_ = a.Collect(time.Unix(2, 0))
+		}()
+		wg.Wait()
+		_ = a.Close()
+		total++
+		for i := 0; i < n; i++ {
+			if int(stopped[i])+int(timedOut[i]) != 1 || stopped[i] != stopOK[i] {
+				c.Res.Violations = append(c.Res.Violations, raceViolation("many-transactions/terminal-events", fmt.Sprintf("50000 expired transactions, Collect || two goroutines stopping them: transaction %d got %d stopped and %d timeout events, Stop returned nil %d times (want one terminal event, stopped iff Stop returned nil)", i, stopped[i], timedOut[i], stopOK[i])))
+				racePassFinish(c, total, "")
+				return
+			}
+		}
+	}
+	racePassFinish(c, total, "Agent: 2..5 goroutines x 2 operations over 3 shared ids, re-entrant handlers; Close / Collect over 63..1100 transactions; Collect over 50000 || Stop")
 }
 
 // ---- C15 / C10: Client ----
@@ -380,6 +436,86 @@ func raceHMAC(c *Ctx) {
 		iters = 3000
 	}
 	var total int64
+	// first, on one goroutine (deterministic, the real sync.Pool): one instance stays in use while n other keys pass
+	// through the same pool - what a server verifying n other users' messages does while one check is in progress
+	for _, sha256on := range []bool{false, true} {
+		acquire, put, refMAC := hmacx.AcquireSHA1, hmacx.PutSHA1, ref.HMACSHA1
+		if sha256on {
+			acquire, put, refMAC = hmacx.AcquireSHA256, hmacx.PutSHA256, ref.HMACSHA256
+		}
+		for _, n := range []int{1, 2, 3, 4, 8, 15, 16, 17, 31, 32, 33, 64, 65, 128, 300} {
+			for prep := 0; prep < 3; prep++ {
+				total++
+				keyA := patBytes([]int{20, 64, 100}[prep], 200+n)
+				p1, p2, msg2 := patBytes(70, 1), patBytes(33, 2), patBytes(5, 3)
+				if prep > 0 { // the key has been through the pool before
+					h0 := acquire(keyA)
+					h0.Write(p1)
+					put(h0)
+				}
+				hA := acquire(keyA)
+				hA.Write(p1)
+				bad := ""
+				for i := 0; i < n && bad == ""; i++ {
+					k := patBytes(1+(i*7)%90, i)
+					k = append(k, byte(i), byte(i>>8)) // distinct
+					h := acquire(k)
+					h.Write(p2)
+					if got := h.Sum(nil); string(got) != string(refMAC(k, p2)) {
+						bad = fmt.Sprintf("key %d of %d passing through the pool while another instance is in use: wrong HMAC (sha256=%v)", i, n, sha256on)
+					}
+					put(h)
+				}
+				if bad == "" {
+					hA.Write(p2)
+					if got := hA.Sum(nil); string(got) != string(refMAC(keyA, append(append([]byte{}, p1...), p2...))) {
+						bad = fmt.Sprintf("an instance keyed with a %d-byte key (seen by the pool %d times before), half written, then %d other keys acquired, used and returned: its Sum is not the HMAC of what was written to it (sha256=%v)", len(keyA), prep, n, sha256on)
+					}
+				}
+				if bad == "" {
+					hA.Reset()
+					hA.Write(msg2)
+					if got := hA.Sum(nil); string(got) != string(refMAC(keyA, msg2)) {
+						bad = fmt.Sprintf("an instance keyed with a %d-byte key, after %d other keys went through the pool: Reset, Write, Sum is not the HMAC under its key (sha256=%v)", len(keyA), n, sha256on)
+					}
+				}
+				put(hA)
+				if bad != "" {
+					c.Res.Violations = append(c.Res.Violations, raceViolation("wrong-digest/instance-in-use-while-other-keys-pass", bad))
+					racePassFinish(c, total, "")
+					return
+				}
+			}
+		}
+	}
+	// the two pools are two pools: one key through both, in both orders (a long-term key is used with SHA-1 by RFC
+	// 5389 peers and with SHA-256 by RFC 8489 peers)
+	for _, kl := range []int{0, 20, 64, 65, 100, 300} {
+		for order := 0; order < 2; order++ {
+			total++
+			key, msg := patBytes(kl, 77+order), patBytes(41, 9)
+			for step := 0; step < 4; step++ {
+				use256 := (step+order)%2 == 1
+				var got, want []byte
+				if use256 {
+					h := hmacx.AcquireSHA256(key)
+					h.Write(msg)
+					got, want = h.Sum(nil), ref.HMACSHA256(key, msg)
+					hmacx.PutSHA256(h)
+				} else {
+					h := hmacx.AcquireSHA1(key)
+					h.Write(msg)
+					got, want = h.Sum(nil), ref.HMACSHA1(key, msg)
+					hmacx.PutSHA1(h)
+				}
+				if string(got) != string(want) {
+					c.Res.Violations = append(c.Res.Violations, raceViolation("wrong-digest/one-key-through-both-pools", fmt.Sprintf("a %d-byte key used with both pools in turn (first with sha256=%v): use %d (sha256=%v) gives a wrong HMAC", kl, order == 1, step, use256)))
+					racePassFinish(c, total, "")
+					return
+				}
+			}
+		}
+	}
 	for it := 0; it < iters; it++ {
 		if c.Expired() {
 			break
@@ -564,11 +700,22 @@ func raceSlowHandler(c *Ctx) (int64, bool) {
 		iters = 3
 	}
 	var total int64
-	for it := 0; it < iters; it++ {
+	for it := 0; it < 2*iters; it++ {
 		total++
 		conn := &raceConn{in: make(chan []byte, 4), closed: make(chan struct{})}
 		clk := &setClock{t: time.Date(2030, 1, 1, 0, 0, 0, 0, time.UTC)}
-		cl, err := stun.NewClient(conn, stun.WithClock(clk), stun.WithRTO(10*time.Millisecond), stun.WithNoRetransmit, stun.WithTimeoutRate(time.Millisecond))
+		opts := []stun.ClientOption{stun.WithClock(clk), stun.WithRTO(10 * time.Millisecond), stun.WithNoRetransmit, stun.WithTimeoutRate(time.Millisecond)}
+		if it%2 == 1 {
+			// everything at its default (system clock, default rate), and another idle client with default options alive
+			// in the process: what one client's Close waits for is its own collector, whoever else has one
+			opts = []stun.ClientOption{stun.WithRTO(10 * time.Millisecond), stun.WithNoRetransmit}
+			bystander, berr := stun.NewClient(&raceConn{in: make(chan []byte, 4), closed: make(chan struct{})})
+			if berr != nil {
+				c.Fail("NewClient: %v", berr)
+			}
+			defer bystander.Close()
+		}
+		cl, err := stun.NewClient(conn, opts...)
 		if err != nil {
 			c.Fail("NewClient: %v", err)
 		}
